@@ -121,7 +121,7 @@ impl Prop for C17 {
         sentinel_core::config::reset_global_config(ConfigEntity::new());
         cov.sim_ns += w.sim_ns;
         cov.ops += w.ops;
-        RunResult { trace_hash: tr.hash(), violation: viol }
+        RunResult::new(tr.hash(), viol)
     }
 
     fn shrink(&self, scenario: &Value) -> Vec<Value> {
